@@ -1,7 +1,7 @@
 (* Main.v — single entry point of the extracted model: one request tree in, one
    response tree out.  The OCaml driver only parses and prints trees. *)
 From Coq Require Import String List.
-From Prov Require Import Str Sexp Tables Nsm Scope Values Record World Jtree Json JsonSpec Provn ProvnSpec IO Interp.
+From Prov Require Import Str Sexp Tables Nsm Scope Values Record World Jtree Json JsonSpec Provn ProvnSpec IO Dot Interp.
 Import ListNotations.
 Open Scope string_scope.
 
@@ -9,6 +9,7 @@ Definition run (req : sexp) : sexp :=
   match req with
   | L (A "nsprog" :: ops) => L (run_nsprog scope_init ops)
   | L (A "prog" :: L ft :: ops) => run_prog ft ops
+  | L [A "dotquote"; A s] => L [A (dot_quote s); A (html_escape s)]
   | L [A "destpath"; A name] =>
       match dest_path name with Some p => L [A "some"; A p] | None => L [A "none"] end
   | L [A "provnspec"; A text] =>
